@@ -86,7 +86,7 @@ fn mutate(s: &str, kind: u8, arg: u8, other_prefix: &str) -> String {
 const BAD_CHANNELS: &[&str] = &["channel-", "channel-1x", "chan-1", "channel--1", "channel-18446744073709551616", "channel-+5", "channel-007", "Channel-1", "channel-1 ", "", "channel-1/2", "channel-١"];
 const BAD_IBC: &[&str] = &["ibc/", "ibc/ABC", "IBC/", "ibc", "", "xibc/"];
 const BAD_PREFIX: &[&str] = &["OSMO", "Osmo", "", "os mo", "osmo\u{7f}", "ośmo", "CELESTIA", "celestiA"];
-const BAD_DENOM: &[&str] = &["uti", "utia1", "u-tia", "", "milk TIA", "milkTIÄ", "abcd", "ABCD"];
+const BAD_DENOM: &[&str] = &["uti", "utia1", "u-tia", "", "milk TIA", "milkTIÄ", "abcd", "ABCD", "milkTIA ", " milkTIA", "milkTIA\n", "stTIA\t"];
 
 /// Independent well-formedness of the supplied sections of a stored configuration.
 pub fn well_formed(cfg: &Value, native: bool, protocol: bool, fee: bool, monitors: bool) -> Result<(), String> {
@@ -298,7 +298,9 @@ fn apply_muts(c: &CCase, p: &mut Parts) -> bool {
             }
             15 => {
                 // periods are plain numbers: every value is well-formed, none may crash the contract
-                p.batch_period = [u64::MAX, u64::MAX - 1_700_000_000, 0, u64::MAX / 2][arg as usize % 4];
+                // 1.7e9 is the simulated block time of this module: deadline exactly at / just beyond the Timestamp limit
+                let limit = u64::MAX / 1_000_000_000;
+                p.batch_period = [u64::MAX, u64::MAX - 1_700_000_000, 0, u64::MAX / 2, limit - 1_700_000_000, limit - 1_700_000_000 + 1, limit, limit - 850_000_000][arg as usize % 8];
                 true
             }
             _ => {
@@ -351,6 +353,11 @@ pub fn eval(c: &CCase) -> Eval {
                     let sub = lst.rsplit('/').next().unwrap_or("");
                     if sub.is_empty() || !sub.chars().all(|c| c.is_ascii_alphabetic()) || lst != format!("factory/{}/{}", s_addr, sub) {
                         viol.push(Violation { stop: true, prop: "C14", clause: "accepted_config_is_well_formed", step: 1, msg: format!("LST denom {:?}", lst) });
+                    }
+                    // C19: the create-denom message is for the configured sub-denom, with the contract as sender
+                    let creates: Vec<(String, String)> = r.effects.iter().filter_map(|e| match e { Effect::TfCreate { sender, subdenom, .. } => Some((sender.clone(), subdenom.clone())), _ => None }).collect();
+                    if creates.len() != 1 || creates[0].0 != s_addr || creates[0].1 != sub {
+                        viol.push(Violation { stop: true, prop: "C19", clause: "create_denom_matches_config", step: 1, msg: format!("instantiate emitted create-denom {:?} but the configured LST denom is {:?}", creates, lst) });
                     }
                     if corrupted {
                         ev.stats.probe("corrupted_instantiate_accepted_but_well_formed");
